@@ -354,7 +354,30 @@ def lines_run(chk, exe, gen_args, name, relevant=None, stateful=False, only=None
     chk.cov["distinct_nontrivial"] += min(st.get("distinct_nontrivial_lines", 0), st.get("evaluations", rep["summary"]["lines"]))
     chk.cov["traces_validated_against_impl"] += rep["summary"]["lines"]
     report_lines(chk, rep, relevant, name, transcript=tr if stateful else None, only=only)
+    drop_if_big(chk, tr, name)
     return rep
+
+
+def drop_if_big(chk, tr, name):
+    """Transcripts are scratch (a witness keeps its own copy under replays/): a big one is removed as soon as it has been
+    driven, after remembering a few of its lines for the evidence samples.  Disk use of a run stays bounded by its
+    largest transcript instead of their sum (a thorough run of all properties used to leave 16 GB in work/)."""
+    try:
+        if os.path.getsize(tr) < 64 << 20:
+            return
+        lines = []
+        with open(tr) as f:
+            for l in f:
+                if " | " in l:
+                    lines.append(l.strip())
+                    if len(lines) >= 3000:
+                        break
+        if not hasattr(chk, "sample_cache"):
+            chk.sample_cache = {}
+        chk.sample_cache[name] = lines
+        os.remove(tr)
+    except OSError:
+        pass
 
 
 def sample(chk, exe, reqs):
@@ -369,7 +392,7 @@ def sample_from(chk, name, n=3):
     try:
         lines = [l.strip() for l in open(path) if " | " in l]
     except OSError:
-        return
+        lines = getattr(chk, "sample_cache", {}).get(name, [])
     if lines:
         step = max(1, len(lines) // n)
         chk.cov["samples"] += lines[step // 2::step][:n]
